@@ -402,6 +402,7 @@ func refCase(col *Collector, c refCfg, tag string) {
 }
 
 func runC18(col *Collector, tier string, seed int64) {
+	loaderReuseCases(col, "C18", []string{"yaml"}, []string{"dangling", "missing"})
 	rng := rand.New(rand.NewSource(seed))
 	col.res.Rule = "the real taskctl binary on generated configurations (2-4 tasks, 2-4 pipelines with stages referring to tasks or pipelines, depends_on inside the pipeline in shuffled declaration order, a watcher): " +
 		"the valid configuration, and the same with exactly one reference broken at every position (stage->task, stage->pipeline, depends_on->unknown stage, depends_on->stage of another pipeline, watcher->task, duplicate stage name, inclusion cycle of length 1..3); " +
